@@ -85,6 +85,17 @@ class STuple:
         self.items = list(items)
 
 
+class SDict:
+    """A Python dict with constant string keys, kept structural (key set known per path)."""
+    __slots__ = ("items",)
+
+    def __init__(self, items):
+        self.items = dict(items)
+
+    def __repr__(self):
+        return f"SDict({list(self.items)})"
+
+
 NONE_V = None
 
 
